@@ -2,7 +2,7 @@
    Statements only (copied from the lemma libraries); every proof is a bare
    `exact`; see the cited files in coq/proofs for the proofs. *)
 From Coq Require Import List NArith ZArith Bool Arith Sorting.Sorted Sorting.Permutation.
-From D2P Require Import Str Err Xml TableTypes Tables Fmt Bullets Merge Collector Walk ShapeFacts TokFacts FrameFacts MergeFacts Predicates SeqFacts LineageFacts BulletsFacts GridFacts LineageFacts GridWalk BlocksSpec.
+From D2P Require Import Str Err Xml TableTypes Tables Fmt Bullets Merge Collector Walk ShapeFacts TokFacts FrameFacts MergeFacts Predicates SeqFacts LineageFacts BulletsFacts GridFacts LineageFacts GridWalk BlocksSpec MarkerFacts ReplaceFacts StandIns.
 Import ListNotations.
 
 (* refinement to the declarative spec: walking a paragraph whose content is inline (any nesting of runs, wrappers, unknown elements, hyperlinks, pictures, forms, equations; no nested paragraph, table cell, note or comment marker) appends exactly ONE record after all earlier ones, pointing at that element, with its style, whose tokens are: queued note label, list marker, then the contributions of its children in document order - nothing else, nothing twice, nothing from elsewhere; the open-paragraph stack and comment ranges are untouched *)
@@ -201,3 +201,87 @@ Theorem C02_text_never_migrates :
   Forall (rec_ok v path (AE e ks)) ps.
 Proof. exact blocks_text_of_paragraph. Qed.
 Print Assumptions C02_text_never_migrates.
+
+(* THE COMPLETE CASE ANALYSIS of what an inline element contributes: for each of the 14 handled tags its documented stand-in (text, tab, break, note reference marker, picture marker, alt-text marker, symbol span, check box, drop-down entry, equation, link), and for EVERY other tag exactly what its children contribute - nothing else can be emitted *)
+Theorem C02_stand_ins_complete :
+  forall v path e ks, plain_inline (AE e ks) = true ->
+  (e_ptag e = tag_RUN ->
+     emit v path (AE e ks)
+     = (st <- get_run_formatting e ks (env_x2h v) ;; emit_kids v path ks 0%nat))
+  /\ (e_ptag e = tag_TEXT \/ e_ptag e = tag_TEXT_MATH ->
+     emit v path (AE e ks) = then_kids v path ks (map TTxt (ostr (e_text e))))
+  /\ (e_ptag e = tag_MATH ->
+     emit v path (AE e ks)
+     = Ok (TOpen s_latex :: map TTxt (itertext (AE e ks)) ++ [TClose s_latex]))
+  /\ (e_ptag e = tag_BR -> emit v path (AE e ks) = then_kids v path ks [TRaw 10])
+  /\ (e_ptag e = tag_TAB -> emit v path (AE e ks) = then_kids v path ks [TRaw 9])
+  /\ (e_ptag e = tag_SYM ->
+     emit v path (AE e ks)
+     = (font <- attr_w e s_font ;; chr <- attr_w e s_char ;;
+        then_kids v path ks
+          (match ostr chr with
+           | [] => []
+           | _ :: tl => TOpen (s_span_font ++ ostr_or_None font)
+                        :: raw ([38; 35; 120; 48] ++ tl ++ [59]) ++ [TClose s_span]
+           end)))
+  /\ (e_ptag e = tag_HYPERLINK ->
+     emit v path (AE e ks)
+     = (body <- below_loop v path ks 0%nat ;; Ok (link_contrib v e body)))
+  /\ (e_ptag e = tag_FORM_CHECKBOX ->
+     emit v path (AE e ks) = (x <- get_checkBox_entry e ks ;; then_kids v path ks (raw x)))
+  /\ (e_ptag e = tag_FORM_DDLIST ->
+     emit v path (AE e ks) = (x <- get_ddList_entry e ks ;; then_kids v path ks (map TTxt x)))
+  /\ (e_ptag e = tag_FOOTNOTE_REFERENCE ->
+     emit v path (AE e ks)
+     = (id <- attr_w_req e s_id ;;
+        then_kids v path ks (raw (s_dashes ++ s_footnote ++ id ++ s_dashes))))
+  /\ (e_ptag e = tag_ENDNOTE_REFERENCE ->
+     emit v path (AE e ks)
+     = (id <- attr_w_req e s_id ;;
+        then_kids v path ks (raw (s_dashes ++ s_endnote ++ id ++ s_dashes))))
+  /\ (e_ptag e = tag_IMAGE ->
+     emit v path (AE e ks) = then_kids v path ks (image_toks v (attr_r_req e s_embed)))
+  /\ (e_ptag e = tag_IMAGEDATA ->
+     emit v path (AE e ks) = then_kids v path ks (image_toks v (attr_r_req e s_id)))
+  /\ (e_ptag e = tag_IMAGE_ALT ->
+     emit v path (AE e ks)
+     = then_kids v path ks
+         (match attr_plain e s_descr with
+          | Some d => raw s_alt_prefix ++ map TTxt d ++ [TRaw 60]
+          | None => []
+          end))
+  /\ (~ In (e_ptag e) handled_tags -> emit v path (AE e ks) = emit_kids v path ks 0%nat).
+Proof. exact emit_handled_tags. Qed.
+Print Assumptions C02_stand_ins_complete.
+
+(* an equation: <latex> its text </latex>, children not walked *)
+Theorem C02_equation :
+  forall v path e ks, e_ptag e = tag_MATH ->
+  emit v path (AE e ks)
+  = Ok (TOpen s_latex :: map TTxt (itertext (AE e ks)) ++ [TClose s_latex]).
+Proof. exact emit_math. Qed.
+Print Assumptions C02_equation.
+
+(* a symbol: the font span with the character reference, added into the open run *)
+Theorem C02_symbol :
+  forall v path e ks font c tl, e_ptag e = tag_SYM ->
+  forallb plain_inline ks = true ->
+  attr_w e s_font = Ok font -> attr_w e s_char = Ok (Some (c :: tl)) ->
+  emit v path (AE e ks)
+  = (k <- emit_kids v path ks 0%nat ;;
+     Ok ((TOpen (s_span_font ++ ostr_or_None font)
+          :: raw ([38; 35; 120; 48] ++ tl ++ [59]) ++ [TClose s_span]) ++ k)).
+Proof. exact emit_sym. Qed.
+Print Assumptions C02_symbol.
+
+(* a check box: the box chosen by w:checked (absent value = checked) or else w:default, over the ST_OnOff spellings *)
+Theorem C02_check_box_value :
+  forall e ks, get_checkBox_entry e ks = checkbox_spec e ks.
+Proof. exact checkbox_values. Qed.
+Print Assumptions C02_check_box_value.
+
+(* a drop-down: the entry selected by w:result (first entry when absent), empty when out of range *)
+Theorem C02_drop_down_value :
+  forall e ks, get_ddList_entry e ks = ddlist_spec e ks.
+Proof. exact ddlist_value. Qed.
+Print Assumptions C02_drop_down_value.
